@@ -62,7 +62,7 @@ def parse_atom(tok):
         return dict(el=tok, iso=None, chir=None, h=None, charge=0, arom=False)
     if tok in AROMATIC_ORGANIC:
         return dict(el=tok.capitalize(), iso=None, chir=None, h=None, charge=0, arom=True)
-    m = BRACKET.match(tok)
+    m = BRACKET.fullmatch(tok)
     if not m:
         raise SmilesError("bad_atom:" + tok[:20])
     iso, el, chir, h, ch, _cls = m.groups()
